@@ -84,3 +84,61 @@ func VerifC13Namespaces(h *verifh.H) {
 	}
 	h.Observe("n", len(handed))
 }
+
+// VerifC13Race: two clients concurrently make the first use of namespaces
+// (the same one or different ones, through either entry point) under a
+// symbolic scheduler that may preempt before every lock acquisition: both
+// complete, each expansion ends up with exactly one prefix and each prefix
+// with one expansion, both clients got the same prefix for the same
+// expansion, the prefixes keep expanding to what they were handed out for,
+// and all of that is what a restart reloads.
+func VerifC13Race(h *verifh.H) {
+	hub := VerifNewHub(h)
+	pool := []string{"http://a/", "http://b/"}
+	e1 := pool[h.Choice("exp1", 2)]
+	e2 := pool[h.Choice("exp2", 2)]
+	via1 := h.Choice("via1", 2)
+	via2 := h.Choice("via2", 2)
+	use := func(exp string, via int) (string, error) {
+		if via == 0 {
+			return hub.Store.NamespaceManager.AssertPrefixMappingForExpansion(exp)
+		}
+		curie, err := hub.Store.GetNamespacedIdentifier(exp+"x", nil)
+		if err != nil || len(curie) < 2 {
+			return "", err
+		}
+		return curie[:len(curie)-2], nil
+	}
+	var p1, p2 string
+	var err1, err2 error
+	h.SymbolicLocks()
+	h.SymbolicSched(h.Param("preemptions", 2))
+	h.Go(func() { p1, err1 = use(e1, via1) })
+	h.Go(func() { p2, err2 = use(e2, via2) })
+	h.Assert(h.Wait(), "both clients complete")
+	h.Assert(err1 == nil && err2 == nil && p1 != "" && p2 != "", "both clients are handed a prefix")
+	if e1 == e2 {
+		h.Assert(p1 == p2, "concurrent first use of one namespace hands out one prefix :: exp="+e1+" p1="+p1+" p2="+p2)
+	} else {
+		h.Assert(p1 != p2, "different namespaces get different prefixes :: p1="+p1+" p2="+p2)
+	}
+	check := func(when string) {
+		for _, c := range []struct{ e, p string }{{e1, p1}, {e2, p2}} {
+			back, err := hub.Store.ExpandCurie(c.p + ":x")
+			h.Assert(err == nil && back == c.e+"x", "a prefix handed out expands to its namespace :: "+when+" prefix="+c.p+" exp="+c.e+" got="+back)
+			q, err := hub.Store.NamespaceManager.GetPrefixMappingForExpansion(c.e)
+			h.Assert(err == nil && q == c.p, "lookup by expansion returns the prefix handed out :: "+when+" exp="+c.e+" handed="+c.p+" now="+q)
+		}
+		cnt := map[string]int{}
+		for _, e := range hub.Store.GetGlobalContext(false).Namespaces {
+			cnt[e]++
+		}
+		for e, c := range cnt {
+			h.Assert(c == 1, "the context lists every expansion under one prefix :: "+when+" exp="+e)
+		}
+	}
+	check("after the race")
+	hub = hub.Restart()
+	check("after a restart")
+	h.Observe("p1", p1)
+}
